@@ -2,7 +2,7 @@ CONSTANTS
     MaxEpoch = 5
     MaxImm = 2
     MaxRestarts = 2
-    MaxFaults = 3
+    MaxFaults = 2
     MaxTurns = 1
     Others = {}
     RecOff = 1
